@@ -27,6 +27,15 @@ structure Case where
   pre : Bool := false
   par : Bool := false
   sched : List Nat := []
+  /-- round 2: pause between shots / the target's delay (ms); the gun's transport options as given (ms resp. counts) -/
+  gap : Nat := 0
+  delay : Nat := 0
+  idle : Option Int := none
+  rht : Option Int := none
+  mic : Option Int := none
+  mich : Option Int := none
+  /-- tls-handshake-timeout: `none` = not given (hs=def); the harness gives 20s unless the case says otherwise -/
+  hs : Option Int := some 20000
 
 def parseFormat : String → Option Format
   | "uri" => some .uri
@@ -58,6 +67,11 @@ def parseGun : String → Option GunKind
   | "connect" => some .connect
   | _ => none
 
+def optInt (kv : List (String × String)) (k : String) : Option (Option Int) :=
+  match getS kv k with
+  | "" | "-" => some none
+  | v => v.toInt?.map some
+
 def parseCase (kv : List (String × String)) : Option Case := do
   let f ← parseFormat (getS kv "fmt")
   let inst ← getN? kv "inst"
@@ -68,9 +82,16 @@ def parseCase (kv : List (String × String)) : Option Case := do
   let gun ← parseGun (getS kv "gun")
   let sched ← (splitList (getS kv "sched") ".").mapM String.toNat?
   if sched.any (· ≥ inst) then none
+  let hs ← match getS kv "hs" with
+    | "" | "-" => some (some (20000 : Int))
+    | "def" => some none
+    | v => v.toInt?.map some
   pure { f := f, ssl := getS kv "ssl" == "1", srvTls := getS kv "srv" == "tls", ka := getS kv "ka" == "1",
          inst := inst, tgt := getS kv "tgt", passes := passes, conf := conf, items := items,
-         gun := gun, pre := getS kv "pre" == "1", par := getS kv "mode" == "par", sched := sched }
+         gun := gun, pre := getS kv "pre" == "1", par := getS kv "mode" == "par", sched := sched,
+         gap := (getS kv "gap").toNat?.getD 0, delay := (getS kv "delay").toNat?.getD 0,
+         idle := ← optInt kv "idle", rht := ← optInt kv "rht", mic := ← optInt kv "mic", mich := ← optInt kv "mich",
+         hs := hs }
 
 def parseRecHdr (s : String) : Option (Str × List Str) :=
   match s.splitOn ":" with
@@ -165,6 +186,33 @@ def targetOf (tgt : String) : Str :=
 def isH2Awkward (n : Str) : Bool := n = str "Cookie" || n = connKey || n = str "Keep-Alive" || n = str "Upgrade" ||
   n = str "Proxy-Connection" || n = str "Te"
 
+/-- pauses of the flights of a case: shot number `j` (seq: position in the case; par: position among the gun's own
+shots) is sent `gap` after the shot before it; `last g` = number of the gun's latest shot that arrived -/
+def pausesFrom (gap : Nat) (par : Bool) : List (Nat × Bool) → Nat → List (Nat × Option Nat) → List Nat
+  | [], _, _ => []
+  | (g, arrived) :: rest, j, last =>
+    let own := if par then ((last.filter fun p => p.1 == g).length) else j
+    let prev := (last.find? fun p => p.1 == g).bind (·.2)
+    let pause := match prev with
+      | some k => (own - k) * gap
+      | none => 0
+    let last' := if arrived then (g, some own) :: last
+                 else (g, prev) :: last
+    pause :: pausesFrom gap par rest (j + 1) last'
+
+/-- the gun's config as the harness writes it, option by documented name (durations in ns) -/
+def transportOpts (c : Case) : List TransportOpt :=
+  (match c.hs with | some v => [("tls-handshake-timeout", v * msec)] | none => []) ++
+  (if c.ka then [] else [("disable-keep-alives", 1)]) ++
+  (match c.idle with | some v => [("idle-conn-timeout", v * msec)] | none => []) ++
+  (match c.rht with | some v => [("response-header-timeout", v * msec)] | none => []) ++
+  (match c.mic with | some v => [("max-idle-conns", v)] | none => []) ++
+  (match c.mich with | some v => [("max-idle-conns-per-host", v)] | none => [])
+
+/-- `x` (ns) is too close to the limit `lim` (ns, > 0) for a wall-clock observation: inside (0.4·lim, 1.25·lim) -/
+def nearLimit (lim : Int) (x : Nat) : Bool :=
+  decide (0 < lim) && decide (2 * lim < 5 * (x : Int)) && decide (4 * (x : Int) < 5 * lim)
+
 def handleRun (c : Case) (impl : String) : String × String :=
   if impl.startsWith "ENV" then ("-", "skip:env")
   else if impl.startsWith "BAD-INPUT" then ("-", "skip:bad-input")
@@ -185,13 +233,22 @@ def handleRun (c : Case) (impl : String) : String × String :=
     if c.gun = .http2 ∧ names.any isH2Awkward then ("-", "skip:h2-connection-specific-or-cookie-header") else
     if !(shots.all connInGrammar) then ("-", "skip:connection-header-outside-grammar") else
     let arrived := shots.map fun s => sendable s && (c.srvTls == c.ssl)
-    let flights := (shots.zip arrived).zipIdx.map fun (p, j) =>
-      ({ gun := gunOf c.inst c.sched j, arrived := p.2, close := p.1.close } : Flight)
+    let gunsOf := (List.range shots.length).map (gunOf c.inst c.sched)
+    let pauses := pausesFrom (c.gap * 1000000) c.par (gunsOf.zip arrived) 0 []
+    let flights := ((shots.zip arrived).zip (gunsOf.zip pauses)).map fun (p, gp) =>
+      ({ gun := gp.1, arrived := p.2, close := p.1.close, pause := gp.2, delay := c.delay * 1000000 } : TFlight)
+    let tr := transportOf (transportOpts c)
+    if c.gun = .http2 ∧ (c.mic.isSome ∨ c.mich.isSome ∨ c.rht.isSome) then ("-", "skip:h2-pool-options-not-modelled") else
+    -- x/net/http2 arms its idle timer with any non-zero IdleConnTimeout: a negative one closes every connection at once
+    if c.gun = .http2 ∧ tr.idleConnTimeout < 0 then ("-", "skip:h2-negative-idle-timeout") else
+    if (impl.splitOn " tm=late ").length > 1 then ("-", "skip:inconclusive-timing") else
+    if flights.any (fun f => f.arrived && (nearLimit tr.idleConnTimeout f.pause || nearLimit tr.responseHeaderTimeout f.delay))
+      then ("-", "skip:inconclusive-timing-margin") else
     let major := if c.gun = .http2 then 2 else 1
     let arrivedShots := (shots.zip arrived).filterMap fun p => if p.2 then some p.1 else none
     let rendered := arrivedShots.map (renderShot major)
     let rendered := if c.par then (sortKeyed (rendered.map fun r => (r, ()))).map (·.1) else rendered
-    let model := s!"n={arrivedShots.length} shots={shots.length} conns={connRun c.ka c.inst flights} run={if st = .ok then "ok" else "err"} tun={if c.gun = .connect then "ok" else "-"} decoy=0 reqs={String.intercalate "|" rendered}"
+    let model := s!"n={arrivedShots.length} shots={shots.length} conns={tconnRun tr c.inst flights} run={if st = .ok then "ok" else "err"} tun={if c.gun = .connect then "ok" else "-"} decoy=0 tm=ok reqs={String.intercalate "|" rendered}"
     let verdict :=
       if confH.any (fun kv => !tokenName kv.1 || !kv.2.all cleanValue) then "skip:malformed-option" else
       match wantsOfPass c conf (hostWithoutPort g.target) c.items [] with
@@ -205,7 +262,11 @@ def handleRun (c : Case) (impl : String) : String × String :=
           let wants := if c.par ∧ wants.length = shots.length then
               (sortKeyed ((shots.map (renderShot major)).zip wants)).map (·.2)
             else wants
-          judge wants (c.srvTls == c.ssl) c.ka c.inst o
+          let arrivedFl := flights.filter (·.arrived)
+          let maxPause := arrivedFl.foldl (fun m f => max m f.pause) 0
+          let maxDelay := if arrivedFl.isEmpty then 0 else c.delay * 1000000
+          let ro : ReuseOpts := { idle := c.idle.map (· * 1000000), rht := c.rht.map (· * 1000000), mic := c.mic, mich := c.mich }
+          judge wants (c.srvTls == c.ssl) c.ka c.inst o (reuseExpected ro maxPause maxDelay)
     (model, verdict)
 
 def handle : Handler := fun input impl =>
